@@ -1,7 +1,7 @@
-\* intended switches; clause family (the other families: ClassDecl_quick2.cfg, run alongside)
+\* intended switches; second half of the quick families (run alongside ClassDecl_quick.cfg)
 CONSTANTS
   Switches <- Intended
-  Families = {"clause"}
+  Families = {"sections", "struct", "dup", "comments"}
   MaxSections = 3
 INIT Init
 NEXT Next
